@@ -921,7 +921,9 @@ class _FunctionAliases(ast.NodeTransformer):
                 continue            # the aliased name is itself a local
             loads = [x for x in ast.walk(node) if isinstance(x, ast.Name) and x.id == nm and isinstance(x.ctx, ast.Load)]
             called = [c.func for c in ast.walk(node) if isinstance(c, ast.Call) and isinstance(c.func, ast.Name) and c.func.id == nm]
-            if loads and len(loads) == len(called):
+            # a plain global must only ever be called through the alias; an attribute of a class/module (a registry, a
+            # constant) may be read in any way
+            if loads and (len(loads) == len(called) or isinstance(st.value, ast.Attribute)):
                 ok[nm] = st
         if not ok:
             return node
